@@ -302,6 +302,17 @@ func (self *ReplicationBufferQueue) Push(buf []byte, data []byte) error {
 	return nil
 }
 
+// TailAofId returns the log position (file index, offset) of the oldest record still in the buffer.
+func (self *ReplicationBufferQueue) TailAofId() (uint32, uint32, bool) {
+	self.glock.RLock()
+	defer self.glock.RUnlock()
+	if self.tailItem == nil || len(self.tailItem.buf) != 64 {
+		return 0, 0, false
+	}
+	buf := self.tailItem.buf
+	return uint32(buf[7]) | uint32(buf[8])<<8 | uint32(buf[9])<<16 | uint32(buf[10])<<24, uint32(buf[3]) | uint32(buf[4])<<8 | uint32(buf[5])<<16 | uint32(buf[6])<<24, true
+}
+
 func (self *ReplicationBufferQueue) Pop(cursor *ReplicationBufferQueueCursor) error {
 	self.glock.RLock()
 	currentItem := cursor.currentItem
@@ -1305,6 +1316,14 @@ func (self *ReplicationServer) sendFiles() error {
 		return err
 	}
 
+	if self.bufferCursor.currentItem == nil && self.bufferCursor.seq == 0xffffffffffffffff {
+		// the follower asked while the buffer was empty, so its cursor has no place in it and the queue
+		// will be sent from its oldest record on: that must still be the first record the files above
+		// did not cover, or the records in between (written and overwritten since) would be skipped
+		if aofIndex, aofOffset, ok := self.manager.bufferQueue.TailAofId(); ok && (aofIndex > self.waofLock.AofIndex || (aofIndex == self.waofLock.AofIndex && aofOffset > self.waofLock.AofOffset)) {
+			return errors.New("out of buf")
+		}
+	}
 	err = self.sendFilesFinished()
 	if err != nil {
 		return err
